@@ -79,7 +79,7 @@ func LoadKnown(prop string) []KnownFinding {
 	return out
 }
 
-func (c *Check) Set(k string, v any) { c.mu.Lock(); c.cov[k] = v; c.mu.Unlock() }
+func (c *Check) Set(k string, v any)  { c.mu.Lock(); c.cov[k] = v; c.mu.Unlock() }
 func (c *Check) Assume(s string)      { c.mu.Lock(); c.assume = append(c.assume, s); c.mu.Unlock() }
 func (c *Check) AddEvals(n int64)     { c.mu.Lock(); c.evals += n; c.mu.Unlock() }
 func (c *Check) AddTraces(n int64)    { c.mu.Lock(); c.traces += n; c.mu.Unlock() }
